@@ -54,6 +54,7 @@ type Exec struct {
 	safeCount map[string]int
 	errs      []string
 	paramObs  []Observable
+	names     map[string]int
 	kinds     map[string]string // heap key -> leaf kind
 	leafTyp   map[string]types.Type
 	disabled  map[string]bool // Houdini: candidate invariants that failed
@@ -77,6 +78,13 @@ func (ex *Exec) fname() string {
 func (ex *Exec) addOblig(kind, label, pos, goal string, src string) *Oblig {
 	if ex.discover > 0 {
 		return nil
+	}
+	if ex.names == nil {
+		ex.names = map[string]int{}
+	}
+	ex.names[kind+":"+label]++
+	if n := ex.names[kind+":"+label]; n > 1 {
+		label = fmt.Sprintf("%s~%d", label, n)
 	}
 	o := &Oblig{Name: ex.fname() + "#" + kind + ":" + label, Func: ex.fname(), Kind: kind, Pos: pos, CmdIdx: ex.sc.Len(), Goal: goal, Script: ex.sc, Src: src, Observe: ex.paramObs}
 	ex.obls = append(ex.obls, o)
@@ -476,7 +484,11 @@ func (fr *Frame) run(entryReach string, st *State) {
 				if outs[p] == nil {
 					continue // dead predecessor
 				}
-				edges = append(edges, edge{ex.sc.Define("edge", SBool, edgeCond(p, b)), outs[p].st, p})
+				ec := edgeCond(p, b)
+				if ec == "false" {
+					continue
+				}
+				edges = append(edges, edge{ex.sc.Define("edge", SBool, ec), outs[p].st, p})
 			}
 			if len(edges) == 0 {
 				continue // unreachable (e.g. recover block)
@@ -1125,6 +1137,7 @@ func (s *Script) rollback(m [3]int) {
 	// s.n is not rolled back: names stay unique
 	for _, n := range s.declLog[m[2]:] {
 		delete(s.declared, n)
+		delete(s.defs, n)
 	}
 	s.declLog = s.declLog[:m[2]]
 }
